@@ -86,6 +86,9 @@ pub struct SrcState {
     pub panic_at_call: Option<u64>,
     /// selects the ErrorKind of the injected failure
     pub fail_salt: u64,
+    /// (call number, length): that many consecutive Interrupted results starting at that read call
+    pub storm: Option<(u64, u32)>,
+    storm_left: u32,
 }
 
 pub const FAIL_KINDS: [io::ErrorKind; 19] = [
@@ -134,6 +137,8 @@ impl Src {
             lie_at_call: None,
             panic_at_call: None,
             fail_salt: seed,
+            storm: None,
+            storm_left: 0,
         })))
     }
     pub fn from_bytes(data: &[u8], policy: Policy, seed: u64) -> Src {
@@ -154,6 +159,11 @@ impl Src {
             s.limit = k.min(s.data.len());
             s.end = End::Eof;
         }
+        self
+    }
+    /// `n` consecutive Interrupted results starting at read call number `at` (1-based)
+    pub fn with_storm(self, at: u64, n: u32) -> Src {
+        self.0.borrow_mut().storm = Some((at, n));
         self
     }
     pub fn with_boundaries(self) -> Src {
@@ -194,6 +204,21 @@ impl Read for Src {
                 drop(guard);
                 panic!("source panics on purpose");
             }
+        }
+        // a storm of consecutive Interrupted results (a signal-heavy process): starts at a given call
+        if let Some((at, n)) = s.storm {
+            if s.log.calls == at {
+                s.storm_left = n;
+                s.storm = None;
+            }
+        }
+        if s.storm_left > 0 {
+            s.storm_left -= 1;
+            s.log.interrupts += 1;
+            if s.record_calls {
+                s.log.call_log.push((buf.len(), -1));
+            }
+            return Err(io::Error::new(io::ErrorKind::Interrupted, "injected EINTR (storm)"));
         }
         let remaining = s.limit - s.log.delivered;
         if remaining == 0 {
